@@ -106,6 +106,23 @@ Theorem C02_ready_on_reachable_states : forall ops k n c, let s := run_all ops i
 Proof. exact reachable_ready. Qed.
 Print Assumptions C02_ready_on_reachable_states.
 
+(* NO TRIAL IS EVER ASSIGNED TO TWO WORKERS.  Along every history from the initial state and for every RPC whatsoever (any
+   kind, any arguments, any Pythia answer, success or failure): a stored trial that is not REQUESTED keeps its owner and
+   never becomes REQUESTED again.  Ownership is therefore given exactly once, when a queued trial leaves REQUESTED (or
+   when the trial is created), and never moves.  (The ownership clause is part of the transition relation of the C01
+   frame theorem, Proofs/FrameP.v.) *)
+Theorem C02_owner_never_changes : forall ops ro k n n' id t t',
+  get_node k (nodes (run_all ops init_state)) = Some n ->
+  get_node k (nodes (step_state (run_all ops init_state) ro)) = Some n' ->
+  get_trial id (n_trials n) = Some t -> get_trial id (n_trials n') = Some t' ->
+  t_state t <> REQUESTED -> t_client t' = t_client t /\ t_state t' <> REQUESTED.
+Proof.
+  intros ops ro k n n' id t t' Hn Hn' Ht Ht' Hr.
+  destruct (frame_history ops ro k n n' id t t' Hn Hn' Ht Ht') as [_ [_ [Hl [_ Hown]]]].
+  split; [exact (Hown Hr)|exact (legal_not_requested _ _ Hl Hr)].
+Qed.
+Print Assumptions C02_owner_never_changes.
+
 (* worked instance (kernel-evaluated): two workers, over-delivery, queued trials handed to the second worker *)
 Theorem C02_worked_instance :
   let ops := [(CreateStudy 1 1 false (mkS SS_ACTIVE [(1%N, true)] []), PFail EOther);
